@@ -83,14 +83,18 @@ fn flatten_case(out: &mut Out, mm: &[Vec<u64>]) {
 }
 
 pub fn run(cfg: &Cfg, out: &mut Out) {
-    let max_exh = if cfg.tier == Tier::Quick { 5 } else { 7 };
-    for len in (1..=max_exh).step_by(2) { all_seqs(len, 3, |vs| simplify_case(out, vs)); }
+    // exhaustive part: every conflict up to 9 terms over 3 symbols and up to 7 terms over 4 symbols
+    // (thorough: 11 / 9).  Rare cancellation orders (a later side pulled forward, then skipped) first
+    // exist at 9 terms, so stopping at 5 or 7 terms would leave them to chance.
+    let (max3, max4) = if cfg.tier == Tier::Quick { (9, 7) } else { (11, 9) };
+    for len in (1..=max3).step_by(2) { all_seqs(len, 3, |vs| simplify_case(out, vs)); }
+    for len in (3..=max4).step_by(2) { all_seqs(len, 4, |vs| if vs.contains(&3) { simplify_case(out, vs) }); }
     out.set_exhaustive(true);
-    out.note(format!("exhaustive: simplify on all odd arities ≤ {max_exh} over 3 symbols; random arity ≤ 13 over 2–4 symbols; flatten depth 2 with inner arity ≤ 5; update_from_simplified with fresh-value edits"));
+    out.note(format!("exhaustive: simplify on all odd arities ≤ {max3} over 3 symbols and ≤ {max4} over 4 symbols; random arity ≤ 15 over 2–5 symbols; flatten depth 2 with inner arity ≤ 5; update_from_simplified with fresh-value edits"));
     let mut r = cfg.rng(1);
-    for _ in 0..cfg.n(3000, 150_000) {
-        let len = 2 * r.range(0, 6) + 1;
-        let k = r.range(2, 4);
+    for _ in 0..cfg.n(12_000, 300_000) {
+        let len = 2 * r.range(0, 7) + 1;
+        let k = r.range(2, 5);
         let vs: Vec<u64> = (0..len).map(|_| r.below(k) as u64).collect();
         simplify_case(out, &vs);
         update_case(out, &mut r, &vs);
